@@ -267,15 +267,17 @@ def execute(prop, trace):
         return execute_c03(trace)
     out = _execute(prop, trace)
     if out.violations and trace.get("scribble"):
-        # Aliasing probe (DESIGN 4.1): C01 does not promise that the caller may
-        # overwrite a delivered buffer; a divergence that needs the overwrite
-        # is reported as a probe, never as an alarm.
+        # Buffer re-use (a streaming reader with one pre-allocated buffer overwrites it after
+        # process() returned).  A divergence that needs the overwrite means the detector kept a
+        # view of caller-owned memory: the signal WAS fed chunk by chunk and the result differs
+        # from one piece, so it is reported - with a component of its own so that it is attributable.
         t2 = dict(trace)
         t2["scribble"] = False
         out2 = _execute(prop, t2)
         if not out2.violations:
-            out.violations = []
             out.count("probe:aliasing_divergence")
+            for v in out.violations:
+                v["component"] = v["component"] + ":buffer-reuse"
         else:
             out.violations = out2.violations
     return out
@@ -588,7 +590,12 @@ def generate_c03(rng, tier):
     elif kind == "container":
         tw["index"] = rng.choice(["range", "shuffled", "float", "datetime", "string", "offset", "dupint"])
         tw["perm_seed"] = rng.randint(0, 10 ** 6)
-    return {"world": NAME, "signal": sig, "twin": tw}
+    tr = {"world": NAME, "signal": sig, "twin": tw}
+    if rng.random() < 0.4:
+        # the twin is delivered in chunks (cut positions are fractions of the twin's length, so they
+        # survive shrinking); the relation must hold however the twin is fed
+        tr["twin_cuts"] = sorted(rng.random() for _ in range(rng.choice([1, 1, 2, 3, 6])))
+    return tr
 
 
 def _series_for(sig, tw):
@@ -695,7 +702,17 @@ def execute_c03(trace):
             d2 = _mk(det, rec)
             with warnings.catch_warnings(record=True) as wl:
                 warnings.simplefilter("always")
-                _feed(d2, twin_in)
+                m = len(twin_in)
+                cuts = sorted({min(m - 1, max(1, int(round(f * m)))) for f in trace.get("twin_cuts", [])}) if m > 1 else []
+                if cuts:
+                    out.count("probe:twin_delivered_in_chunks")
+                    if expect_warning and any(bool(np.isnan(twin_in[c - 1])) for c in cuts):
+                        out.count("probe:nan_last_sample_of_a_chunk")
+                    if expect_warning and any(bool(np.isnan(twin_in[c])) for c in cuts):
+                        out.count("probe:nan_first_sample_of_a_chunk")
+                bounds = [0] + cuts + [m]
+                for a_, b_ in zip(bounds[:-1], bounds[1:]):
+                    _feed(d2, twin_in[a_:b_] if not isinstance(twin_in, pd.Series) else twin_in.iloc[a_:b_])
             o2 = observe(d2, det, rec)
         except RealCodeError as e:
             out.violate("exception", "%s/%s/%s" % (kind, det, e.where), {"type": e.exc_type, "msg": e.msg})
@@ -714,7 +731,7 @@ def execute_c03(trace):
         got = {k: o2[k] for k in want}
         if got != want:
             k = first_diff(got, want)
-            out.violate("T-" + kind, det, {"field": k, "got": got[k], "want": want[k]})
+            out.violate("T-" + kind, det + (":chunked" if trace.get("twin_cuts") and len(twin_in) > 1 else ""), {"field": k, "got": got[k], "want": want[k]})
             continue
         if o["from"]:
             out.sigs.append("%s|%s|%s|cy%d" % (kind if kind != "container" else "container-" + tw["index"], det,
@@ -782,6 +799,15 @@ def shrink(prop, trace):
                 yield t
     else:
         tw = trace["twin"]
+        if trace.get("twin_cuts"):
+            t = copy.deepcopy(trace)
+            t["twin_cuts"] = []
+            yield t
+            if len(trace["twin_cuts"]) > 1:
+                for cand in core.drop_chunks(trace["twin_cuts"], 1):
+                    t = copy.deepcopy(trace)
+                    t["twin_cuts"] = cand
+                    yield t
         if tw.get("ins"):
             for cand in core.drop_chunks(tw["ins"]):
                 t = copy.deepcopy(trace)
@@ -859,7 +885,7 @@ def describe(prop):
                          "distinct_nontrivial counts distinct (detector, recorder, set of border kinds, chunk-count bucket, signal features, residual depth) among replicas with >=2 chunks and >=1 recorded cycle."),
                 "assumptions": ["float64 ndarray chunks (the kernels accept nothing else)", "one-piece replica of the working tree is the reference for I1 (C02 checks it against an independent definition)",
                                 "final flush=True is exercised for the FKM detector only (3-/4-point flush semantics are outside C01)",
-                                "overwriting the delivered buffer after process() returns is a probe of aliasing, part of the run for 30% of runs"],
+                                "in 30% of runs the delivered ndarray buffer is overwritten after process() has returned (a streaming reader re-using one buffer); a divergence that needs the overwrite is reported with component '<detector>:buffer-reuse'"],
                 "required_probes": ["border:before-turn", "border:after-turn", "border:in-rev-plateau", "border:in-slope-plateau", "border:monotone",
                                     "probe:three_or_more_chunks", "I2-indices-mapped"]}
     if prop == "C02":
@@ -874,7 +900,8 @@ def describe(prop):
             "rule": ("one run = one seeded dyadic signal and one twin configuration: dup / mid / dup+mid insertion of non-reversal samples (incl. trailing duplicates and two-sample plateaus on slopes), "
                      "NaN insertion away from the ends, negation, exact positive affine map (3-/4-point), pandas Series with range/shuffled/float/datetime/string/offset/duplicate index; "
                      "for each detector the twin's cycles, residuals and indices must equal the image of the reference replica's. distinct_nontrivial counts distinct (twin kind, detector, signal features, cycle-count bucket) with >=1 cycle."),
-            "assumptions": ["signals are dyadic rationals so that affine maps and interpolated samples are exact", "whole-signal (one-chunk) delivery: chunking is C01's subject",
+            "assumptions": ["signals are dyadic rationals so that affine maps and interpolated samples are exact", "the reference replica is fed in one piece; in 40% of runs the twin is fed in seeded chunks (violations then carry the component '<detector>:chunked')",
                             "a duplicate is inserted after its original; an intermediate sample lies in [left, right) so the plateau-first-sample convention is unambiguous",
                             "neg/affine/container are twin configurations, not faults"],
-            "required_probes": ["fault:dup", "fault:mid", "fault:nan", "twin:neg", "twin:affine", "twin:container:string", "twin:container:datetime"]}
+            "required_probes": ["fault:dup", "fault:mid", "fault:nan", "twin:neg", "twin:affine", "twin:container:string", "twin:container:datetime",
+                                "probe:twin_delivered_in_chunks", "probe:nan_last_sample_of_a_chunk"]}
